@@ -11,6 +11,13 @@ from ..report import Check
 MUTATORS = ("append", "remove", "pop", "clear", "insert", "extend", "discard", "add")
 
 
+def is_snapshot_of(it: ast.AST, what=lambda e: True) -> bool:
+    """tuple(X) / list(X) / sorted(X) / X.copy() / X[:] with X satisfying `what`"""
+    return (isinstance(it, ast.Call) and call_name(it) in ("tuple", "list", "sorted") and len(it.args) == 1 and what(it.args[0])) or \
+           (isinstance(it, ast.Call) and isinstance(it.func, ast.Attribute) and it.func.attr == "copy" and what(it.func.value)) or \
+           (isinstance(it, ast.Subscript) and isinstance(it.slice, ast.Slice) and it.slice.lower is None and it.slice.upper is None and what(it.value))
+
+
 def dispatch_iterates_a_snapshot(chk: Check, repo: Repo, fi: FuncInfo, attr: str, what: str, key: str) -> None:
     """A dispatch loop that calls user callbacks must not walk the live registry those callbacks can change (the
     unregister functions exist for exactly that): with `for cb in self.<registry>` a callback that removes itself
